@@ -146,10 +146,101 @@ fn formula_tt(rng: &mut Rng64, n: usize) -> TT {
     t
 }
 
+/// one pair with an operand of more than 65 536 nodes (a dense pseudo-random function over 20 variables)
+struct BigPair { k: usize, big: String, small: String, tt: Vec<bool> }
+
+fn big_pair(k: usize, rng: &mut Rng64) -> BigPair {
+    let n = 20usize;
+    let size = 1usize << n;
+    let tt: Vec<bool> = (0..size).map(|_| rng.bool()).collect();
+    let big = fmt_bdd(&bdd_of_tt(n, &tt));
+    let small = match k % 3 {
+        0 => fmt_bdd(&bdd_of_tt(n, &(0..size).map(|i| i & 3 == 3).collect::<Vec<_>>())), // x18 & x19
+        1 => { let m: usize = rng.next() as usize & (size - 1);
+               fmt_bdd(&bdd_of_tt(n, &(0..size).map(|i| (i & m).count_ones() % 2 == 1).collect::<Vec<_>>())) } // parity
+        _ => fmt_bdd(&bdd_of_tt(n, &(0..size).map(|i| bit(i, 0, n) || (bit(i, 7, n) && !bit(i, 19, n))).collect::<Vec<_>>())),
+    };
+    BigPair { k, big, small, tt }
+}
+
+/// The three parts of a big pair are emitted at different places of the stream (the runner shards the case
+/// file into contiguous chunks). part 0: limited operator with limits {size-1, size, huge}; part 1: dry run
+/// with {count-1, count, huge}; part 2: cmp_implies against the big function minus / plus one valuation and
+/// against itself. Even k: (small, big); odd k: (big, small); `both_orders` adds the other order.
+fn big_emit(p: &BigPair, part: usize, both_orders: bool, rng: &mut Rng64, out: &mut Out) {
+    let k = p.k;
+    let conns = [8u32, 14, 6, 11, 4, 9];
+    let huge = (1u64 << 40).to_string();
+    if part < 2 {
+        let mut orders = vec![if k % 2 == 0 { (p.small.clone(), p.big.clone()) } else { (p.big.clone(), p.small.clone()) }];
+        if both_orders { orders.push(if k % 2 == 0 { (p.big.clone(), p.small.clone()) } else { (p.small.clone(), p.big.clone()) }); }
+        for (j, (l, r)) in orders.iter().enumerate() {
+            let c = conns[(k + j) % conns.len()];
+            let table = if (k + j) % 2 == 0 { eager_table2(c) } else { lazy_table2(c) };
+            let (lb, rb) = (Bdd::from_string(l), Bdd::from_string(r));
+            if part == 0 {
+                let rsize = catch(|| Bdd::binary_op(&lb, &rb, table_fn(&table))).map(|b| b.size()).unwrap_or(1);
+                for limit in [(rsize.max(1) - 1).to_string(), rsize.to_string(), huge.clone()] {
+                    run("C05.blim", &[table.clone(), c.to_string(), l.clone(), r.clone(), limit], out);
+                }
+            } else {
+                let count = catch(|| Bdd::check_binary_op(usize::MAX, &lb, &rb, table_fn(&table))).flatten().map(|x| x.1).unwrap_or(0);
+                for limit in [(count.max(1) - 1).to_string(), count.to_string(), huge.clone()] {
+                    run("C05.bdry", &[table.clone(), c.to_string(), l.clone(), r.clone(), limit], out);
+                }
+            }
+        }
+    } else {
+        let (n, size) = (20usize, 1usize << 20);
+        let i = (0..size).map(|d| (rng.below(size as u64) as usize + d) % size).find(|i| p.tt[*i]).unwrap_or(0);
+        let j = (0..size).map(|d| (rng.below(size as u64) as usize + d) % size).find(|j| !p.tt[*j]).unwrap_or(0);
+        let mut minus = p.tt.clone(); minus[i] = false;
+        let mut plus = p.tt.clone(); plus[j] = true;
+        let (minus, plus) = (fmt_bdd(&bdd_of_tt(n, &minus)), fmt_bdd(&bdd_of_tt(n, &plus)));
+        run("C05.cmp", &[minus.clone(), p.big.clone()], out);  // strictly below: Less
+        run("C05.cmp", &[plus.clone(), p.big.clone()], out);   // plus => big fails in exactly one valuation: Greater
+        run("C05.cmp", &[p.big.clone(), p.big.clone()], out);  // Equal
+        if both_orders { run("C05.cmp", &[p.big.clone(), minus], out); run("C05.cmp", &[plus, p.small.clone()], out); }
+        // a small left operand (x18 & x19: the same left pointer meets tens of thousands of right pointers) whose
+        // implication into a big right operand fails in exactly one valuation w: incomparable
+        let w = (rng.below(size as u64) as usize) | 3;
+        let a = fmt_bdd(&bdd_of_tt(n, &(0..size).map(|i| i & 3 == 3).collect::<Vec<_>>()));
+        let bw = fmt_bdd(&bdd_of_tt(n, &(0..size).map(|i| if i & 3 == 3 { i != w } else { p.tt[i] }).collect::<Vec<_>>()));
+        run("C05.cmp", &[a.clone(), bw.clone()], out);
+        if both_orders { run("C05.cmp", &[bw, a], out); }
+    }
+}
+
+/// parity / threshold operands over n variables: many shared sub-diagrams
+fn shared_tt(rng: &mut Rng64, n: usize) -> TT {
+    let size = 1usize << n;
+    match rng.below(6) {
+        0 => (0..size).map(|i| i.count_ones() % 2 == 1).collect(),                      // x0 ^ … ^ x(n-1)
+        1 => (0..size).map(|i| i.count_ones() % 2 == 0).collect(),
+        2 => { let m = 1 + rng.below(size as u64 - 1) as usize; (0..size).map(|i| (i & m).count_ones() % 2 == 1).collect() } // xor chain on a subset
+        3 => { let k = rng.below(n as u64 + 1) as u32; (0..size).map(|i| (i as u32).count_ones() >= k).collect() }       // threshold
+        4 => { let k = rng.below(n as u64 + 1) as u32; (0..size).map(|i| (i as u32).count_ones() == k).collect() }       // exactly k
+        _ => { let m = 1 + rng.below(size as u64 - 1) as usize; let k = rng.below(n as u64) as u32;
+               (0..size).map(|i| ((i & m) as u32).count_ones() > k).collect() }
+    }
+}
+
 const CONNS: [u32; 6] = [8, 14, 6, 11, 4, 9];
 
 pub fn gen(tier: Tier, rng: &mut Rng64, out: &mut Out) {
     let thorough = tier == Tier::Thorough;
+    // --- operands with more than 65 536 nodes (memo keys / pointers beyond 16 bits): quick 2 pairs, thorough 8;
+    //     their parts are emitted between the other sections (see `big_emit`)
+    let bigs: Vec<BigPair> = (0..(if thorough { 8 } else { 2 })).map(|k| big_pair(k, rng)).collect();
+    let mut slot = 0usize;
+    let mut emit_big = |rng: &mut Rng64, out: &mut Out| {
+        // slot s: pair (s / 3) % len, part s % 3; thorough emits several slots per call
+        let per_call = (3 * bigs.len() + 6) / 7;
+        for _ in 0..per_call {
+            if slot < 3 * bigs.len() { big_emit(&bigs[slot / 3], slot % 3, thorough, rng, out); slot += 1; }
+        }
+    };
+    emit_big(rng, out);
     // --- n <= 2: all pairs, one random connective/table and flip choice each (thorough: three), all limits
     for n in 0..=2usize {
         let count = 1u64 << (1u64 << n);
@@ -165,6 +256,7 @@ pub fn gen(tier: Tier, rng: &mut Rng64, out: &mut Out) {
             run("C05.cmp", &[l.clone(), r.clone()], out);
         } }
     }
+    emit_big(rng, out);
     // --- n = 3: pairs (sampled in quick, all in thorough) x 6 connectives (one table each) x flips, all limits
     let all3: Vec<String> = (0..256u64).map(|t| fmt_bdd(&bdd_of_tt(3, &tt_from_index(3, t)))).collect();
     let fs3 = flips(3);
@@ -186,6 +278,30 @@ pub fn gen(tier: Tier, rng: &mut Rng64, out: &mut Out) {
         }
         run("C05.cmp", &[l.clone(), r.clone()], out);
     }
+    emit_big(rng, out);
+    // --- parity / threshold operands (xor chains over 3..8 variables, thresholds: heavily shared sub-diagrams)
+    //     against the constants and against each other, every limit (the last expanded task then has two
+    //     non-terminal successors that are both already visited)
+    for n in 3..=8usize {
+        let t = fmt_bdd(&bdd_of_tt(n, &vec![true; 1 << n]));
+        let f = fmt_bdd(&bdd_of_tt(n, &vec![false; 1 << n]));
+        let par = fmt_bdd(&bdd_of_tt(n, &(0..(1usize << n)).map(|i| i.count_ones() % 2 == 1).collect::<Vec<_>>()));
+        for c in [8u32, 14, 6, 11] {
+            sweep(&lazy_table2(c), c, &par, &t, None, None, None, rng, out);
+            sweep(&eager_table2(c), c, &f, &par, None, None, None, rng, out);
+        }
+        let rounds = if thorough { 60 } else { 6 };
+        for _ in 0..rounds {
+            let a = fmt_bdd(&bdd_of_tt(n, &shared_tt(rng, n)));
+            let b = match rng.below(4) { 0 => t.clone(), 1 => f.clone(), _ => fmt_bdd(&bdd_of_tt(n, &shared_tt(rng, n))) };
+            let (l, r) = if rng.bool() { (a, b) } else { (b, a) };
+            let c = *rng.pick(&CONNS);
+            let fs = flips(n);
+            let (fl, fr, fo) = if rng.chance(2, 3) { (None, None, None) } else { (*rng.pick(&fs), *rng.pick(&fs), *rng.pick(&fs)) };
+            sweep(&some_table2(rng, c), c, &l, &r, fl, fr, fo, rng, out);
+        }
+    }
+    emit_big(rng, out);
     // --- random operands over 4..6 variables (incl. non-canonical operands), all limits
     let rounds = if thorough { 12000 } else { 220 };
     for _ in 0..rounds {
@@ -200,6 +316,7 @@ pub fn gen(tier: Tier, rng: &mut Rng64, out: &mut Out) {
         let (fl, fr, fo) = if rng.chance(1, 3) { (None, None, None) } else { (*rng.pick(&fs), *rng.pick(&fs), *rng.pick(&fs)) };
         sweep(&some_table2(rng, c), c, &ls, &rs, fl, fr, fo, rng, out);
     }
+    emit_big(rng, out);
     // --- cmp_implies: comparable pairs are rare among random pairs, so build them: a, a&b, a|b, !a, equal copies
     let rounds = if thorough { 20000 } else { 1200 };
     for _ in 0..rounds {
@@ -251,6 +368,7 @@ pub fn gen(tier: Tier, rng: &mut Rng64, out: &mut Out) {
         let (x, y) = if rng.bool() { (a, b) } else { (b, a) };
         run("C05.cmp", &[fmt_bdd(&x), fmt_bdd(&y)], out);
     }
+    emit_big(rng, out);
     // --- panics come before the limit test: out-of-range flips, different variable counts, any limit
     let rounds = if thorough { 2000 } else { 150 };
     for _ in 0..rounds {
@@ -273,6 +391,7 @@ pub fn gen(tier: Tier, rng: &mut Rng64, out: &mut Out) {
             run("C05.lim", &[t.clone(), c.to_string(), other, rs.clone(), s("-"), s("0"), s("-"), limit.clone()], out);
         }
     }
+    emit_big(rng, out);
 }
 
 fn main() { harness_main(gen, run) }
